@@ -461,8 +461,12 @@ func (s *State) oblige(kind, name string, props []string, goal, where, specSrc s
 		o.Cmds = append([]string(nil), s.cmds...)
 	}
 	s.coll.obls = append(s.coll.obls, o)
-	// after asserting, the fact may be assumed on the rest of the path
-	s.assume(goal)
+	// after asserting, the fact may be assumed on the rest of the path (only useful for checks in the middle of a path)
+	switch kind {
+	case "post", "invariant-preserved", "decreases":
+	default:
+		s.assume(goal)
+	}
 }
 
 func sortedKeys(m map[string]string) []string {
